@@ -27,7 +27,7 @@ class Scene:
     def add(self, code_id, video_idx, frame_idx, poses, amplitudes=None):
         self.poses[code_id] = [np.asarray(p, float) for p in poses]
         self.ident[code_id] = (video_idx, frame_idx)
-        self.amplitude[code_id] = amplitudes or [1.0 - 0.07 * k for k in range(len(poses))]
+        self.amplitude[code_id] = amplitudes or [0.75 ** k for k in range(len(poses))]  # far enough apart that grid sampling (<= 11% loss) cannot reorder them
 
 
 def centroid_of(pose, anchor=None):
